@@ -220,6 +220,11 @@ func (d *decompressor) nextBlockAt(off int64, rs io.ReadSeeker) *decompressor {
 	d.acquireHead()
 	defer d.releaseHead()
 
+	// Label the block with the offset it is meant for before anything
+	// can fail, so that a consumer waiting for that offset recognises
+	// the failed attempt and sees its error.
+	d.blk.setBase(off)
+
 	if d.cr.offset() != off {
 		if rs == nil {
 			// It should not be possible for the expected next block base
